@@ -16,7 +16,10 @@ apply_forces 0 (exact).
 Workload diversity (added after the seeded-change campaign): ``transfer_forcing_from_grid_to_body`` is called alternately
 with keyword and positional arguments; every body also gets a float32 marker-force field (tolerance 64 * eps32 * sum|terms|,
 the precision of that input); grids with N == dim markers and 2-element rods are counted and required; every third full
-interaction runs on a box with y (and z) extent > x extent.  Not added: a sibling interaction with another dx (each new
+interaction runs on a box with y (and z) extent > x extent.  Every second body is CHANGED after its grid was built (rods
+stretched / compressed per element 0.7..1.4 => rod.radius rescaled by PyElastica, new velocities; rigid bodies a new centre
+and director frame) and the SAME grid object, refreshed as every interaction does, must still balance force and moment for a
+gaussian (non-uniform around the circumference) force field; 2-D bodies with d3 = -z and non-zero spin are required.  Not added: a sibling interaction with another dx (each new
 (dx, N) pair costs ~25 s of numba compilation in 3-D; C06/C07/C10 own that dimension).
 
 Observed sign convention (matches the property text): ``lag_grid_forcing_field`` F_m is the force ON THE FLUID; it is
@@ -93,6 +96,12 @@ REQUIRE = {
     "interactions": 10,
     "apply_forces_checks": 8,
     "grid_integral_checks": 10,
+    "rod_bodies_changed_after_grid_construction": 200,
+    "radius_dependent_grids_after_radius_change_gt_5pct": 50,
+    "rigid_bodies_reposed_after_grid_construction": 200,
+    "transfers_after_body_change": 400,
+    "bodies_2d_d3_flipped_with_nonzero_spin": 20,
+    "moment_checks_2d_d3_flipped": 50,
     "transfers_keyword_arguments": 1000,
     "transfers_positional_arguments": 1000,
     "float32_marker_force_transfers": 500,
@@ -241,6 +250,8 @@ def _run_bodies(sh, rec):
             rec.count("markers_forced", N)
             if rep:
                 rec.count("second_transfer_checks")
+            if case.meta.get("flipped"):
+                rec.count("moment_checks_2d_d3_flipped")
             _check_wrench(rec, case, bf, bt, F, P, fkind if rep < 2 else "second-transfer", pc)
         else:
             # mixed precision: float32 marker forces (what a real_t=float32 interaction holds) into the float64 body arrays
@@ -248,6 +259,42 @@ def _run_bodies(sh, rec):
             if _transfer(rec, case, bf, bt, F):
                 rec.count("float32_marker_force_transfers")
                 _check_wrench(rec, case, bf, bt, F, P, "gauss-float32", pc, eps=float(np.finfo(np.float32).eps))
+
+        flipped_spin = bool(case.meta.get("flipped")) and body.omega_collection[2, 0] != 0
+        if flipped_spin:
+            rec.count("bodies_2d_d3_flipped_with_nonzero_spin")
+        # (a') the BODY changes under the SAME grid object (a grid that cached geometry at construction is stale): rods are
+        # stretched / compressed per element along their tangents (PyElastica rescales rod.radius per element) and get new
+        # velocities; rigid bodies get a new centre, director frame and velocities.  The grid is refreshed the way every
+        # interaction does (position, then velocity); the force field is gaussian, i.e. non-uniform around the circumference.
+        if j % 2 == 1:
+            if case.family == "rod":
+                r_before = np.array(body.radius)
+                bodies.stretch_rod(body, rng)
+                bodies.set_rod_velocities(body, rng, dim)
+                rchg = float(np.max(np.abs(np.array(body.radius) / r_before - 1.0)))
+                rec.count("rod_bodies_changed_after_grid_construction")
+                if kind in ("surface3d", "surfacecap3d", "edge2d") and rchg > 0.05:
+                    rec.count("radius_dependent_grids_after_radius_change_gt_5pct")
+            else:
+                bodies.set_rigid_state(body, rng, dim)
+                if dim == 2:
+                    case.meta["flipped"] = bool(body.director_collection[2, 2, 0] < 0)
+                rec.count("rigid_bodies_reposed_after_grid_construction")
+            try:
+                bodies.refresh_grid(g)
+                changed_ok = True
+            except Exception as e:
+                rec.violation(f"grid-update-raises|{kind}", f"{type(e).__name__}: {e} {case.meta}", {"meta": case.meta})
+                changed_ok = False
+            if changed_ok:
+                bf, bt = _zeros_out(case)
+                F = np.ascontiguousarray(rng.standard_normal((dim, N)) * 10 ** rng.uniform(-2, 3))
+                if _transfer(rec, case, bf, bt, F):
+                    rec.count("transfers_after_body_change")
+                    if case.meta.get("flipped"):
+                        rec.count("moment_checks_2d_d3_flipped")
+                    _check_wrench(rec, case, bf, bt, F, P, "gauss-after-body-change", pc)
 
         # (b) one-hot fields: every marker class must reach the body on its own
         picks = {0, N - 1, *(int(i) for i in rng.integers(0, N, size=min(N, 5)))}
